@@ -92,6 +92,12 @@ CELER_FUNCTION size_type UniformGrid::find(value_type value) const
 {
     CELER_EXPECT(value >= this->front() && value < this->back());
     auto bin = static_cast<size_type>((value - data_.front) / data_.delta);
+    if (CELER_UNLIKELY(bin + 1 == this->size()))
+    {
+        // The quotient can round up to the last grid point for values just
+        // below the upper bound
+        --bin;
+    }
     CELER_ENSURE(bin + 1 < this->size());
     return bin;
 }
